@@ -17,6 +17,7 @@ import (
 	"pgregory.net/rapid"
 
 	cstypes "mods.irisnet.org/modules/coinswap/types"
+	"mods.irisnet.org/simapp"
 
 	"verifharness/chain"
 	"verifharness/gen"
@@ -33,6 +34,12 @@ import (
 //               the sheet, never recomputed with a price formula); bounds and deadlines respected; a
 //               rejected message is re-run on a branch with loosened bounds to show that the rejection
 //               was justified.
+//
+// Both modes: a removal whose coin is not a liquidity token (look-alike denom) is expected to be rejected without
+// any effect; if it is accepted, C02 reports it (no pool stands behind the coin) and C01 holds the pool whose
+// sequence the denom carries against the share-value clause.  The "reimport" operation takes the module through
+// its own genesis; afterwards the registry read-back (pools, lpt-denom index, next sequence, standard denom,
+// parameters) and every other clause go on as before, new pools must get fresh lpt denoms.
 
 // Environment switches (generator only, Apply never reads them):
 //   VERIF_C02_AVOID_F1=1  never generate a routed (token-to-token) swap whose recipient differs from the
@@ -45,9 +52,10 @@ var poolDenoms = []string{"btc", "eth", "usdt"}
 
 // Look-alike denominations: coins that are NOT the liquidity token of any pool but whose denom has the shape
 // "<name>-<N>" (exactly what types.ParseLptDenom / MsgRemoveLiquidity.ValidateBasic accept), N being a pool
-// sequence the machine can reach (1..3): other prefixes, other letter case, leading zeros.  The rich users
-// hold them from genesis (chain.Options.ExtraDenoms), so a removal "with" them is only stopped by the pool
-// lookup.  lookalikeOther are never held by anybody: a shape ValidateBasic refuses, sequence numbers without a pool.
+// sequence the machine can reach (1..3): other prefixes, other letter case, leading zeros.  Two of the traders
+// hold each of them from genesis (the i-th denom: U(i mod 4) holds 2^100, U(i+1 mod 4) holds 1000; bank genesis
+// edited through chain.Options.GenesisMod), so a removal "with" them is only stopped by the pool lookup.
+// lookalikeOther are never held by anybody: a shape ValidateBasic refuses, sequence numbers without a pool.
 var (
 	lookalikeHeld  = []string{"voucher-1", "lpt-01", "LPT-1", "xlpt-2", "lpt-002", "Lpt-2", "ibc/lpt-3", "lpt-03", "lpT-3"}
 	lookalikeOther = []string{"lpt-1-1", "lpt-1x", "voucher-4", "lpt-0", "lpt-999"}
@@ -58,9 +66,31 @@ var (
 	csEnvDflt *chain.Env
 )
 
-// csEnv is the environment of this package: the default universe plus whale balances of the look-alike denoms.
+// csEnv is the environment of this package: the default universe plus balances of the look-alike denoms.
 func csEnv() *chain.Env {
-	csEnvOnce.Do(func() { csEnvDflt = chain.NewEnv(chain.Options{ExtraDenoms: lookalikeHeld}) })
+	csEnvOnce.Do(func() {
+		users := chain.MakeUsers(6)
+		csEnvDflt = chain.NewEnv(chain.Options{GenesisMod: func(app *simapp.SimApp, gs simapp.GenesisState) {
+			cdc := app.AppCodec()
+			var bg banktypes.GenesisState
+			cdc.MustUnmarshalJSON(gs[banktypes.ModuleName], &bg)
+			give := func(u int, c sdk.Coin) {
+				for i := range bg.Balances {
+					if bg.Balances[i].Address == users[u].Addr.String() {
+						bg.Balances[i].Coins = bg.Balances[i].Coins.Add(c)
+						bg.Supply = bg.Supply.Add(c)
+						return
+					}
+				}
+				panic("look-alike coins: no genesis balance entry for user " + users[u].Name)
+			}
+			for i, d := range lookalikeHeld {
+				give(i%4, sdk.NewCoin(d, sdkmath.NewIntFromBigInt(gen.Pow2(100))))
+				give((i+1)%4, sdk.NewCoin(d, sdkmath.NewInt(1000)))
+			}
+			gs[banktypes.ModuleName] = cdc.MustMarshalJSON(&bg)
+		}})
+	})
 	return csEnvDflt
 }
 
@@ -511,6 +541,15 @@ func (m *csMachine) genRemoveLookalike(t *rapid.T) csOp {
 		op.Denom = rapid.SampledFrom(lookalikeHeld).Draw(t, "held")
 	default:
 		op.Denom = rapid.SampledFrom(lookalikeOther).Draw(t, "other")
+	}
+	var holders []int
+	for i := range m.c.E.Users {
+		if cell(m.sheet, m.user(i), op.Denom).Sign() > 0 {
+			holders = append(holders, i)
+		}
+	}
+	if len(holders) > 0 && uni(t, "nonholder", 9+1) > 0 {
+		op.Who = rapid.SampledFrom(holders).Draw(t, "holder")
 	}
 	bal := cell(m.sheet, m.user(op.Who), op.Denom)
 	sup := supply(m.sheet, op.Denom)
@@ -1638,7 +1677,7 @@ func (m *csMachine) Classify() (bool, []string) {
 	return nt, cl
 }
 
-const c01Rule = "rapid state machine on the K-driver (irismod blockers only): up to 3 pools (btc/eth/usdt against stake), traders U0-U3 plus a poor account; rules add (first/later), remove, one-sided add/remove (either side), swap (sell/buy x single/double hop x recipient self/other/poor/blocked/pool escrow/module account), bank send (donation of either reserve coin or a third coin to an existing or future escrow address, share-token transfers), parameter update by the authority (fee, one-sided fee, tax rate, creation fee anywhere in their valid ranges) or by a user, next block; amounts by shape up to 2^128 and relative to live reserves, bounds drawn around the reference price (met exactly, off by one, loose, far off), deadlines around the block time; non-trivial = history with >=1 successful swap and >=1 successful liquidity change on a pool whose reserves are not both multiples of 10; distinct by SHA-256 of the op list"
+const c01Rule = "rapid state machine on the K-driver (irismod blockers only): up to 3 pools (btc/eth/usdt against stake), traders U0-U3 plus a poor account; rules add (first/later), remove, one-sided add/remove (either side), swap (sell/buy x single/double hop x recipient self/other/poor/blocked/pool escrow/module account), bank send (donation of either reserve coin or a third coin to an existing or future escrow address, share-token transfers), parameter update by the authority (fee, one-sided fee, tax rate, creation fee anywhere in their valid ranges) or by a user, next block, removal with a coin that only looks like a liquidity token (<name>-<N>, N a pool sequence: other prefix, other letter case, leading zeros; held by the sender from genesis), one-sided add/remove naming a coin the pool does not trade, genesis round trip of the coinswap module (export, wipe the store, import) after which the history continues; amounts by shape up to 2^128 and relative to live reserves, bounds drawn around the reference price (met exactly, off by one, loose, far off), deadlines around the block time; non-trivial = history with >=1 successful swap and >=1 successful liquidity change on a pool whose reserves are not both multiples of 10; distinct by SHA-256 of the op list"
 
 const c02Rule = "same machine as C01 layer 2 with the balance-sheet oracle (every bank balance and supply before/after each message); non-trivial = history with a successful swap whose recipient differs from the sender, or a routed (double-hop) swap, or a swap bound met exactly, or a message rejected for a bound missed by exactly one unit (shown by re-running it with loosened bounds on a branch); distinct by SHA-256 of the op list"
 
